@@ -93,12 +93,48 @@ fn decode(d: &mut FrameDecoder, frame: &[u8], force: Option<u32>, front: u64) ->
             s.read_to_end(&mut out).map_err(|e| format!("read: {e}"))?;
             Ok(out)
         }
-        _ => {
+        2 => {
             if force.is_some() {
                 return decode(d, frame, force, 0);
             }
             let mut out = Vec::with_capacity(8 << 20);
             d.decode_all_to_vec(frame, &mut out).map_err(|e| format!("decode_all_to_vec: {e}"))?;
+            Ok(out)
+        }
+        _ => {
+            // slice to slice: front 3 starts the frame with reset(), front 4 lets decode_from_to read the header itself
+            // (possible only on a decoder that never had a frame, and without force_dict)
+            let never_used = d.bytes_read_from_source() == 0;
+            let mut pos = 0usize;
+            if front == 3 || !never_used || force.is_some() {
+                let mut src = frame;
+                d.reset(&mut src).map_err(|e| format!("reset: {e}"))?;
+                if let Some(id) = force {
+                    d.force_dict(id).map_err(|e| format!("force_dict: {e}"))?;
+                }
+                pos = frame.len() - src.len();
+            }
+            let mut out = Vec::new();
+            let mut target = vec![0u8; 50_000];
+            // source handed over in pieces of 150 KiB (more than a block, so that progress is always possible)
+            let mut idle = 0;
+            loop {
+                let end = (pos + 150_000).min(frame.len());
+                let (rd, wr) = d.decode_from_to(&frame[pos..end], &mut target).map_err(|e| format!("decode_from_to: {e}"))?;
+                pos += rd;
+                out.extend_from_slice(&target[..wr]);
+                if rd == 0 && wr == 0 {
+                    idle += 1;
+                    if d.is_finished() || idle > 3 {
+                        break;
+                    }
+                } else {
+                    idle = 0;
+                }
+            }
+            if !d.is_finished() {
+                return Err("decode_from_to: the whole frame was offered but the decoder did not finish".into());
+            }
             Ok(out)
         }
     }
@@ -175,6 +211,14 @@ pub fn run(args: &Args) -> i32 {
             None => rec.count("dictionary_trainings_that_failed", 1),
         }
     }
+    // dictionary ids of every field width: ZDICT draws ids from 32768..2^31 (four byte field); re-label two of the trained
+    // dictionaries so that frames naming them carry a one byte and a two byte Dictionary_ID field
+    for (k, t) in dicts.iter_mut().enumerate().take(2) {
+        let id: u32 = if k == 0 { r0.range(1, 255) as u32 } else { r0.range(256, 65535) as u32 };
+        t.raw[4..8].copy_from_slice(&id.to_le_bytes());
+        t.id = id;
+        t.what = format!("{} relabelled with id {id}", t.what);
+    }
     if let Ok(raw) = std::fs::read("/repo/ruzstd/dict_tests/dictionary") {
         if raw.len() > 8 {
             let id = u32::from_le_bytes([raw[4], raw[5], raw[6], raw[7]]);
@@ -215,7 +259,7 @@ pub fn run(args: &Args) -> i32 {
                 return;
             }
         };
-        let front = r.below(3);
+        let front = r.below(5);
         let replay = json!({"dictionary": t.what, "frame": if frame.len() < 100_000 { hex(&frame) } else { format!("(len {})", frame.len()) }, "case": [args.seed, 91, i], "with_dict_id": with_id, "front": front});
         let site = format!("front{front} dict_id_in_frame={with_id}");
         // several dictionaries registered, the right one has to be picked
@@ -340,6 +384,11 @@ pub fn run(args: &Args) -> i32 {
     for f in ["buf_repeat_dict_inside", "buf_repeat_dict_straddle", "buf_repeat_dict_missing"] {
         if rec.feat(f) == 0 {
             rec.inconclusive(&format!("coverage floor: dictionary copy path {f} never executed"));
+        }
+    }
+    for f in ["fh_dict_id_1", "fh_dict_id_2", "fh_dict_id_4"] {
+        if rec.feat(f) == 0 {
+            rec.inconclusive(&format!("coverage floor: no frame header with this Dictionary_ID field width was parsed ({f})"));
         }
     }
     if rec.counter("missing_dictionary_refusals") == 0 || rec.counter("dictionary_frames_decoded") == 0 {
